@@ -18,8 +18,9 @@ type Cmd struct {
 	Succ   []*Cmd `json:"succ,omitempty"` // nil = handler not defined
 	Fail   []*Cmd `json:"fail,omitempty"`
 	Fin    []*Cmd `json:"fin,omitempty"`
-	Silent int    `json:"silent,omitempty"` // 0 not given, 1 --silent=true, 2 --silent=false
-	Quote  bool   `json:"quote,omitempty"`  // write single-probe values as "…" instead of a heredoc
+	Silent int    `json:"silent,omitempty"`  // 0 not given, 1 --silent=true, 2 --silent=false
+	Quote  bool   `json:"quote,omitempty"`   // write single-probe values as "…" instead of a heredoc
+	Sb     string `json:"sandbox,omitempty"` // pip:run only: a sandbox registered by the harness whose Run only returns an error
 }
 
 // builder hands out unique probe ids and task names.
@@ -44,6 +45,12 @@ func (b *builder) name(prefix string) string {
 
 func (b *builder) run(body ...*Cmd) *Cmd { return &Cmd{K: "r", Name: b.name("n"), Body: body} }
 
+// runFailSandbox is a nested task in the sandbox "c16fail": its Run never looks at the body and
+// reports its failure only through the returned error (as the ssh and container sandboxes do).
+func (b *builder) runFailSandbox() *Cmd {
+	return &Cmd{K: "r", Name: b.name("n"), Body: []*Cmd{}, Sb: "c16fail"}
+}
+
 func (b *builder) try(body, succ, fail, fin []*Cmd) *Cmd {
 	return &Cmd{K: "t", Name: b.name("t"), Body: body, Succ: succ, Fail: fail, Fin: fin}
 }
@@ -58,6 +65,9 @@ func cmdFails(c *Cmd) bool {
 	case "p":
 		return c.F != ""
 	case "r":
+		if c.Sb != "" {
+			return true
+		}
 		return seqFails(c.Body)
 	default:
 		return tryFails(c)
@@ -155,6 +165,12 @@ func (m *model) exec(cmds []*Cmd, mode, depth int) bool {
 				failed = true
 			}
 		case "r":
+			if c.Sb != "" {
+				if cm != expNot {
+					failed = true
+				}
+				continue
+			}
 			if m.exec(c.Body, cm, depth) && cm != expNot {
 				failed = true
 			}
@@ -246,6 +262,9 @@ func (rd *renderer) line(c *Cmd) string {
 	case "p":
 		return fmt.Sprintf("probe --id=%d", c.ID)
 	case "r":
+		if c.Sb != "" {
+			return fmt.Sprintf("pip:run --name=%s --sandbox=%s --body=\"ignored by the sandbox\"%s", c.Name, c.Sb, silentFlag(c.Silent))
+		}
 		return fmt.Sprintf("pip:run --name=%s --body=%s%s", c.Name, rd.value(c.Body, c.Quote), silentFlag(c.Silent))
 	default:
 		var sb strings.Builder
@@ -424,13 +443,13 @@ func (b *builder) genTry(rng *rand.Rand, depth int, fails *bool) *Cmd {
 // ---- bounded-exhaustive family --------------------------------------------------------------------
 
 const (
-	exhBodies   = 8
+	exhBodies   = 9
 	exhHandlers = 4
 	exhDrivers  = 2
 	exhTotal    = exhDrivers * exhBodies * exhHandlers * exhHandlers * exhHandlers
 )
 
-var exhBodyNames = []string{"ok", "fail-return", "fail-append-then-hold", "ok;fail-return", "task(ok);ok", "task(fail);ok", "try(body fails, handled);ok", "try(finally fails)"}
+var exhBodyNames = []string{"ok", "fail-return", "fail-append-then-hold", "ok;fail-return", "task(ok);ok", "task(fail);ok", "try(body fails, handled);ok", "try(finally fails)", "task(sandbox Run returns an error);ok"}
 var exhHandlerNames = []string{"-", "ok", "fail-return", "fail-append"}
 
 // exhProgram decodes idx into (driver, body kind, success, fail, finally kinds). The structure is
@@ -464,9 +483,13 @@ func exhProgram(idx int, rng *rand.Rand) (b *builder, top *Cmd, driver string, l
 	case 6:
 		inner := b.try([]*Cmd{b.probe(failKind(rng), 0, 0)}, nil, []*Cmd{b.probe("", 0, 0)}, nil)
 		body = []*Cmd{inner, b.probe("", 1, 2)}
-	default:
+	case 8:
+		body = []*Cmd{b.runFailSandbox(), b.probe("", 0, 0)}
+	case 7:
 		inner := b.try([]*Cmd{b.probe("", 0, 0)}, nil, nil, []*Cmd{b.probe(failKind(rng), 0, 0)})
 		body = []*Cmd{inner, b.probe("", 0, 0)}
+	default:
+		panic("exhProgram: unknown body kind")
 	}
 	hk := func(k int) []*Cmd {
 		switch k {
